@@ -198,7 +198,7 @@ impl Prop for C04 {
             // built-ins: 14 calendars x 23 ten-year blocks (+1 for 2200)
             ph("built-in calendars 1970-2200", 14 * 24),
             ph("named combinations", tier.pick(10, 30 * 24)),
-            ph("random calendars and unions", tier.pick(60, 600)),
+            ph("random calendars and unions", tier.pick(60, 3000)),
         ]
     }
     fn workers(&self, tier: Tier) -> usize {
